@@ -1913,9 +1913,8 @@ struct Value {
                                     }
                                 }
                             } else if (!(obj_item->Value.isUndefined())) {
+                                // Removed members are skipped.
                                 new_sub_obj[obj_item->Key] = obj_item->Value;
-                            } else {
-                                return false;
                             }
 
                             ++obj_item;
